@@ -114,7 +114,7 @@ func (b *TkhdBox) EncodeSW(sw bits.SliceWriter) error {
 	}
 	versionAndFlags := (uint32(b.Version) << 24) + b.Flags
 	sw.WriteUint32(versionAndFlags)
-	if b.Version == 0 {
+	if b.Version != 1 { // same test as in decode and Size
 		sw.WriteUint32(uint32(b.CreationTime))
 		sw.WriteUint32(uint32(b.ModificationTime))
 		sw.WriteUint32(b.TrackID)
